@@ -228,7 +228,7 @@ def stack(st, idx):
         # warm-up counted in gate hits (keeps the stack's first algo a calendar scheduler)
         out += [A.RunAfterDays(6 if g == "daily" else 2)]
     if risky:
-        out += [A.SelectThese(["a", "b", "d"]), A.SelectHasData(lookback=pd.DateOffset(days=9), min_count=5)]
+        out += [A.SelectAll(), A.SelectHasData(lookback=pd.DateOffset(days=9), min_count=5)]
     else:
         out += select(st.get("select", "all"))
     out += weigh(st.get("weigh", "equal"))
@@ -507,6 +507,10 @@ def family(tier, seed, nested_full=False):
                 # sub-strategy stacks that trade unconditionally act on the synthetic row (F-C10p, C09 note)
                 continue
             if tree in ("nested", "nested_sec", "deep", "nested_sel") and st.get("flow") is not None:
+                continue
+            if st["mod"] == "targetvol" and st["weigh"] == "target":
+                # the dated target weights name a late-listed ticker whatever was selected: TargetVol
+                # would estimate a covariance on a window without data
                 continue
             if st["mod"] == "limitweights" and st["weigh"] in ("specified", "short", "target"):
                 # ffn.limit_weights is defined for weights that sum to one only
